@@ -186,6 +186,36 @@ def run(ctx):
     upd = [c for c in walk_own(qi.node) if isinstance(c, ast.Call) and call_name(c) == "update"]
     r4.check(bool(upd) and all(norm(c.func.value) in copies for c in upd) and all(norm(c.args[0]) == "kwargs[k]" for c in upd), "Question.__init__:precedence",
              "row values are merged over (after) the type defaults", qi.loc())
+    # the merge itself, for every type of the table and every key its defaults define: a value written on the row
+    # REPLACES the default of that key (it is not combined with it), untouched defaults stay, the table is not written
+    from ..interp import ClassVal as _CV
+    import copy as _copy
+    qtd_all = ctx.consts.get("pyxform.question_type_dictionary", "QUESTION_TYPE_DICT", "C05.R4")
+    snapshot = _copy.deepcopy(qtd_all)
+    qcls_ = repo.cls("pyxform.question:InputQuestion")
+    n_merge = 0
+    bad_merge = []
+    for typ, entry in qtd_all.items():
+        for sect, dflt in entry.items():
+            if not isinstance(dflt, dict) or sect not in ("bind", "control"):
+                continue
+            for key in dflt:
+                itq = ctx.interp("C05.R4", hooks={"fnname:validate": lambda i, a, k, n: None})
+                itq.reset([])
+                own = f"ROW<{key}>"
+                try:
+                    q_ = itq.call(_CV(qcls_), [], {"name": "q", "type": typ, "label": "L", sect: {key: own, "extra": "E"}}, None)
+                except Raised as e:
+                    bad_merge.append((typ, sect, key, f"raises {e.exc_name}"))
+                    continue
+                n_merge += 1
+                got = (q_.attrs.get(sect) or {})
+                want = {**dflt, key: own, "extra": "E"}
+                if got != want:
+                    bad_merge.append((typ, sect, key, f"{got} != {want}"))
+    r4.check(not bad_merge and n_merge >= 100, "Question.__init__[every type x default key overridden]", f"{n_merge} merges: the row's value replaces the type default of the same key, other defaults stay",
+             qi.loc(), why_fail="; ".join(f"{t}.{s_}.{k}: {w}" for t, s_, k, w in bad_merge[:3]))
+    r4.check(qtd_all == snapshot, "QUESTION_TYPE_DICT unchanged by construction", "building questions writes nothing into the shared type table", qi.loc())
     rules.append(r4)
 
     # ------------------------------------------------------------------ R5
